@@ -686,3 +686,27 @@ func mustJSON(v any) string {
 	b, _ := json.Marshal(v)
 	return string(b)
 }
+
+// FuzzRaw: coverage-guided (thorough tier).  Any document the harness' strict
+// reader accepts must round-trip through RawXMLValue (oracles O1-O3).
+func FuzzRaw(f *testing.F) {
+	for _, s := range []string{`<a/>`, `<D:prop xmlns:D="DAV:"><D:getetag>"x"</D:getetag></D:prop>`, `<a xmlns="urn:x"><b xmlns=""><c/></b></a>`,
+		`<p:a xmlns:p="urn:x" p:b="1" xml:lang="en"><!-- c --><?pi d?><![CDATA[x<y]]>&amp;&#xD;</p:a>`, `<a xmlns:p="urn:x"><p:b xmlns:p="urn:y"><p:c/></p:b></a>`, `<D:e xmlns:D="DAV:" xmlns="urn:x"><f/></D:e>`} {
+		f.Add([]byte(s))
+	}
+	f.Fuzz(func(t *testing.T, data []byte) {
+		if len(data) > 4096 {
+			t.Skip()
+		}
+		if _, err := vx.Parse(data); err != nil {
+			t.Skip()
+		}
+		o, err := evaluateTree(Case{Doc: string(data), Depth: 0, Mode: "tree"})
+		if err != nil {
+			t.Skip()
+		}
+		if !o.OK() && !rec.Known(o.Sig) {
+			t.Fatalf("%s: %s", o.Sig, o.Msg)
+		}
+	})
+}
